@@ -29,6 +29,7 @@ import os
 import re
 import sys
 
+sys.setrecursionlimit(max(sys.getrecursionlimit(), 20000))  # the interpreter is written in continuation-passing style
 REPO = os.environ.get("VERIF_REPO", "/repo")
 VERIF = os.path.dirname(os.path.dirname(os.path.abspath(__file__)))
 SRC = os.path.join(REPO, "rusl", "src")
@@ -742,6 +743,14 @@ class Parser:
             if e < 0:
                 raise ParseError("unbalanced " + tok)
             self.i = e + 1
+            if tok == "match":
+                try:
+                    scrut = parse_expr_tokens_ns(self.t[s + 1:ob])
+                    arms = split_arms(self.t[ob + 1:e])
+                    if arms and all(p in (["true"], ["false"], ["_"]) for p, _ in arms):
+                        return ("boolmatch", scrut, [(p[0], parse_expr_tokens(x)) for p, x in arms], self.t[s:self.i])
+                except ParseError:
+                    pass
             return ("opaquectl", tok, self.t[s:self.i])
         if tok == "<":
             self.i -= 1
@@ -808,6 +817,41 @@ class Parser:
         raise ParseError("unexpected token %s" % tok)
 
 
+def split_arms(toks):
+    """tokens between the braces of a `match` -> [(pattern tokens, expression tokens)]"""
+    arms = []
+    i, n = 0, len(toks)
+    while i < n:
+        a = find_at_depth0(toks, i, ("=>",))
+        if a < 0:
+            raise ParseError("match arm without =>")
+        pat = toks[i:a]
+        j = a + 1
+        if j < n and toks[j] == "{":
+            e = match_close(toks, j)
+            if e < 0:
+                raise ParseError("unbalanced arm")
+            arms.append((pat, toks[j:e + 1]))
+            i = e + 1
+            if i < n and toks[i] == ",":
+                i += 1
+        else:
+            c = find_at_depth0(toks, j, (",",))
+            if c < 0:
+                c = n
+            arms.append((pat, toks[j:c]))
+            i = c + 1
+    return arms
+
+
+def parse_expr_tokens_ns(toks):
+    p = Parser(toks)
+    e = p.parse_expr(0, True)
+    if not p.done():
+        raise ParseError("trailing tokens: " + text_of(toks[p.i:p.i + 6]))
+    return e
+
+
 def parse_expr_tokens(toks):
     p = Parser(toks)
     e = p.parse_expr(0, False)
@@ -833,7 +877,8 @@ def parse_expr_tokens(toks):
 #   ("opq", text, tainted)      anything else; tainted = built from the register
 #
 # decision trees:
-#   ("ret", v)  ("cont",)  ("fall",)  ("noret",)  ("br", cond, T, T)  ("sys", T)  ("loop", T)  ("unk", reason)
+#   ("ret", v)  ("cont",)  ("fall",)  ("noret",)  ("br", cond, T, T)  ("sys", T)  ("loop", T)  ("unk", reason[, suspect])
+#   suspect = the construct is followed and is not the property's shape (bounded / conditional repetition of the call)
 
 UNIT = ("unit",)
 REG = ("reg",)
@@ -916,6 +961,8 @@ class St:
 
 
 CTRL_TOKENS = {"return", "break", "continue", "?", "loop", "while", "for", "bail_on_below_zero", "syscall", "yield", "await"}
+PURE_MACROS = {"debug_assert", "debug_assert_eq", "debug_assert_ne", "assert", "assert_eq", "assert_ne", "matches", "format", "format_args",
+               "println", "eprintln", "print", "eprint", "dbg", "addr_of", "addr_of_mut", "cfg", "concat", "stringify", "line", "file"}
 DIVERGING = {"unreachable_unchecked", "unreachable", "panic", "todo", "unimplemented", "abort", "exit"}
 
 
@@ -947,9 +994,8 @@ class Interp:
                 return True
         return False
 
-    @staticmethod
-    def toks_ctrl(toks):
-        return any(t in CTRL_TOKENS for t in toks)
+    def toks_ctrl(self, toks):
+        return any(t in CTRL_TOKENS or t in self.x.bail_macros for t in toks)
 
     # ---- blocks and statements
     def exec_block(self, inner, st, k):
@@ -1091,6 +1137,47 @@ class Interp:
                 return c
         return ("opq", "::".join(segs), False)
 
+    def int_pattern(self, toks, st):
+        """`a | b..=c | ..=d | e..` with constant bounds -> [(lo|None, hi|None)] inclusive, or None"""
+        out = []
+        start = 0
+        alts = []
+        while True:
+            b = find_at_depth0(toks, start, ("|",))
+            alts.append(toks[start:b] if b >= 0 else toks[start:])
+            if b < 0:
+                break
+            start = b + 1
+
+        def const(ts):
+            if not ts:
+                return None
+            try:
+                r = self.ev_toks(ts, St(st.env), lambda v, s: ("val", v))
+            except RecursionError:
+                return "bad"
+            if r[0] == "val" and r[1][0] == "int":
+                return r[1][1]
+            return "bad"
+        for a in alts:
+            if not a:
+                return None
+            r = [i for i, t in enumerate(a) if t in ("..=", "..")]
+            if not r:
+                v = const(a)
+                if v in (None, "bad"):
+                    return None
+                out.append((v, v))
+                continue
+            i = r[0]
+            lo, hi = const(a[:i]), const(a[i + 1:])
+            if lo == "bad" or hi == "bad":
+                return None
+            if a[i] == ".." and hi is not None:
+                hi -= 1
+            out.append((lo, hi))
+        return out
+
     def int_ty(self, tyname):
         t = tyname.strip()
         seen = 0
@@ -1200,7 +1287,7 @@ class Interp:
             return ("withcode", args[1])
         if last == "is_syscall_error" and len(args) == 1:
             return ("iserr", args[0])
-        if last == "coerce_from_register" and len(args) == 2:
+        if last in self.x.coerce_fns and len(args) == 2:
             return ("coerce", args[0])
         if len(segs) == 1 and last in self.callees:
             return ("callw", last)
@@ -1322,14 +1409,32 @@ class Interp:
                 if st.has_reg:
                     return ("unk", "second system call on one path")
                 return ("sys", k(REG, st.with_reg()))
-            if name == "bail_on_below_zero" and len(args) == 2:
+            if name in self.x.bail_macros and len(args) == 2:
                 return self.ev_toks(args[0], st, lambda v, s: ("br", ("iserr", v), ("ret", ("bailerr", v)), k(UNIT, s)))
             if name in DIVERGING:
                 return ("noret",)
+            if name == "matches" and len(args) == 2 and "if" not in args[1]:
+                pat = self.int_pattern(args[1], st)
+                if pat is not None:
+                    def matched(v, s):
+                        c = None
+                        for lo, hi in pat:
+                            if lo is not None and lo == hi:
+                                one = self.binop("==", v, ("int", lo, None))
+                            else:
+                                parts = ([self.binop(">=", v, ("int", lo, None))] if lo is not None else []) + \
+                                        ([self.binop("<=", v, ("int", hi, None))] if hi is not None else [])
+                                one = parts[0] if len(parts) == 1 else self.binop("&&", parts[0], parts[1]) if parts else ("bool", True)
+                            c = one if c is None else self.binop("||", c, one)
+                        return k(c, s)
+                    return self.ev_toks(args[0], st, matched)
             flat = [t for a in args for t in a]
             if self.has_site(flat):
                 return ("unk", "system call inside `%s!`" % name)
-            return k(("opq", name + "!(..)", self.toks_tainted(flat, st)), st)
+            t = self.toks_tainted(flat, st)
+            if t and name not in PURE_MACROS:
+                return ("unk", "macro `%s!` applied to the register (it may return)" % name)
+            return k(("opq", name + "!(..)", t), st)
         if kind == "block":
             return self.exec_block(e[1], st, k)
         if kind == "if":
@@ -1357,12 +1462,27 @@ class Interp:
                     return ("unk", "loop after the system call")
                 return k(("opq", "loop {..}", False), st)
             if st.has_reg or st.in_loop:
-                return ("unk", "system call in a nested / second loop")
+                return ("unk", "system call in a nested / second loop", True)
             body = self.exec_block(e[1], st.enter_loop(k), lambda v, s: ("cont",))
             return ("loop", body)
+        if kind == "boolmatch":
+            def pick(want):
+                for pat, x in e[2]:
+                    if pat == "_" or (pat == "true") == want:
+                        return x
+                return None
+            xt, xf = pick(True), pick(False)
+            if xt is None or xf is None:
+                return ("unk", "non-exhaustive match on a bool")
+
+            def mbranch(c, s):
+                if c[0] == "bool":
+                    return self.ev(xt if c[1] else xf, s, k)
+                return ("br", c, self.ev(xt, s, k), self.ev(xf, s, k))
+            return self.ev(e[1], st, mbranch)
         if kind == "opaquectl":
             if self.has_site(e[2]):
-                return ("unk", "system call inside `%s`" % e[1])
+                return ("unk", "system call inside `%s`" % e[1], e[1] in ("for", "while"))
             t = self.toks_tainted(e[2], st)
             if st.has_reg and (t or any(x in ("return", "?", "break", "continue") for x in e[2])):
                 return ("unk", "`%s` after the system call" % e[1])
@@ -1477,7 +1597,17 @@ def truth(c, err_set):
 # ------------------------------------------------------------------ decision tree -> skeleton
 
 class Opaque(Exception):
-    pass
+    """the translator cannot follow the body: decided at run time"""
+
+
+class Suspect(Opaque):
+    """the translator follows the body and it is NOT one of the property's shapes in a dimension the run-time check only
+    samples (decode depending on an argument, bounded / conditional repetition, a test of the register that is neither
+    the error window nor equality with a constant): stays a broken obligation"""
+
+
+def unk_exc(t):
+    return (Suspect if len(t) > 2 and t[2] else Opaque)(t[1])
 
 
 def code_of(v):
@@ -1527,7 +1657,7 @@ class Norm:
             nt = iv_not(t)
             if len(nt) == 1 and nt[0][0] == nt[0][1]:
                 return ("Q", "u64", nt[0][0], False)
-        raise Opaque("condition on the register not understood: " + show(c)[:100])
+        raise (Opaque if c[0] == "opq" else Suspect)("condition on the register is neither the error window nor `== constant`: " + show(c)[:100])
 
     def leaf(self, v):
         k = v[0]
@@ -1581,7 +1711,7 @@ class Norm:
         if k == "fall":
             return ("FALL",)
         if k == "unk":
-            raise Opaque(t[1])
+            raise unk_exc(t)
         if k in ("sys", "sysw", "loop"):
             raise Opaque("second system call on one path")
         raise Opaque("unexpected tree node " + k)
@@ -1620,15 +1750,16 @@ class Norm:
                     return "(.bail %s)" % p
                 if x == ("CE",) and p == "coerce":
                     return ".coerceFd"
-            raise Opaque("error / success branches not in a known form: %s | %s" % (d[1][0], d[2][0]))
+            raise (Suspect if x[0] == "ER" and not x[1].startswith(".custom") else Opaque)("error / success branches not in a known form: %s | %s" % (
+                " ".join(str(i) for i in x[:2]), y[0]))
         if d[0] == "ER":
             return "(.errAlways %s)" % d[1]
         if d[0] == "U":
             a, b = self.simple(d[1]), self.simple(d[2])
             if a == b:
                 return a
-            raise Opaque("decode depends on something other than the register")
-        raise Opaque("the register is never tested (%s)" % d[0])
+            raise Suspect("decode depends on something other than the register")
+        raise (Suspect if d[0] == "OK" else Opaque)("the register is never tested (%s)" % d[0])
 
     def decode(self, t, has_result, in_loop):
         d = self.canon(t)
@@ -1647,9 +1778,9 @@ class Norm:
         if in_loop and d[0] == "Q":
             if d[3] == ("CONT",) and not has_cont(d[4]):
                 return "(.retryIfEq .%s (%d) %s)" % (d[1], d[2], self.simple(d[4]))
-            raise Opaque("retry loop not of the form `repeat while result == constant`")
+            raise Suspect("retry loop not of the form `repeat while result == constant`")
         if has_cont(d):
-            raise Opaque("retry on a condition that is not `result == constant`")
+            raise Suspect("retry on a condition that is not `result == constant`")
         return self.simple(d)
 
     def skeleton(self, tree, fn):
@@ -1671,16 +1802,16 @@ class Norm:
                 if b[0] in ("sys", "sysw"):
                     walk(b, True)
                 elif contains_sys(b):
-                    raise Opaque("decisions before the system call inside the retry loop")
+                    raise Suspect("decisions before the system call inside the retry loop")
             elif k == "sysw":
                 if in_loop:
-                    raise Opaque("wrapper called in a loop")
+                    raise Suspect("wrapper called in a loop")
                 if t[2] == ("ret", ("callw", t[1])):
                     found.append(("via", t[1]))
                 else:
                     raise Opaque("result of `%s` post-processed" % t[1])
             elif k == "unk":
-                raise Opaque(t[1])
+                raise unk_exc(t)
         walk(tree, False)
         uniq = []
         for f in found:
@@ -1689,7 +1820,7 @@ class Norm:
         if not uniq:
             raise Opaque("no path reaches the system call")
         if len(uniq) > 1:
-            raise Opaque("system call sites decode differently: " + " | ".join(u[1] for u in uniq))
+            raise Suspect("system call sites decode differently: " + " | ".join(u[1] for u in uniq))
         return uniq[0]
 
 
@@ -1831,6 +1962,8 @@ class Env:
         self.aliases = dict(PRIM)
         self.errno = {}
         self.notes = []
+        self.bail_macros = {"bail_on_below_zero"}
+        self.coerce_fns = {"coerce_from_register"}
 
 
 def resolve_ty(env, t):
@@ -1856,6 +1989,28 @@ def tree_truth(t, err_set=None):
             return None
         return iv_or(iv_and(c, a), iv_and(iv_not(c), b))
     return None
+
+
+def followed(c):
+    """the condition is built only from the register, casts, constants, comparisons and connectives"""
+    k = c[0]
+    if k in ("reg", "int", "bool"):
+        return True
+    if k in ("cast", "neg", "not", "iserr"):
+        return followed(c[1])
+    if k == "cmp":
+        return followed(c[2]) and followed(c[3])
+    if k in ("and", "or"):
+        return followed(c[1]) and followed(c[2])
+    return False
+
+
+def tree_followed(t):
+    if t[0] == "ret":
+        return followed(t[1])
+    if t[0] == "br":
+        return followed(t[1]) and tree_followed(t[2]) and tree_followed(t[3])
+    return False
 
 
 def extract_cfg(env):
@@ -1900,7 +2055,13 @@ def extract_cfg(env):
             except (ParseError, RecursionError) as e:
                 t, why = None, "is_syscall_error: cannot parse (%s)" % e
             if t is None:
-                why = "is_syscall_error: body is not a comparison of the register against constants"
+                why = "is_syscall_error: body is not a comparison of the full-width register against constants"
+                if tree_followed(tree):
+                    # every operation is followed (e.g. a test of the narrowed register): not the window test, and not
+                    # something to paper over with run-time observation
+                    problems.append(why + " (a test of a narrowed / transformed register)")
+                    cfg["resv"] = 0
+                    why = None
             elif len(t) == 1 and t[0][1] == M64 - 1 and t[0][0] > (1 << 63):
                 cfg["resv"] = M64 - t[0][0]
                 why = None
@@ -1915,45 +2076,72 @@ def extract_cfg(env):
         unknown.append("resv")
         problems.append(why)
 
-    # --- bail_on_below_zero!
+    # --- the bail macro(s): `bail_on_below_zero!` by name, and any other two-argument macro that does the same thing
     nm = Norm({"resv": cfg["resv"] or 4095})
-    why = "bail_on_below_zero!: definition not found"
+    results = {}
     for path in rs_files():
         src = strip_comments_and_strings(open(path).read())
-        m = re.search(r"macro_rules!\s*bail_on_below_zero\s*\{", src)
-        if not m:
-            continue
-        try:
-            toks = tokenize(src[m.end():match_close(src, m.end() - 1)])
-            arrow = find_at_depth0(toks, 0, ("=>",))
-            pat = toks[1:match_close(toks, 0)]
-            body_open = arrow + 1
-            body = toks[body_open + 1:match_close(toks, body_open)]
-            metas = [t for t in pat if t.startswith("$")]
-            if len(metas) != 2:
-                raise ParseError("expected two macro parameters")
-            it = Interp(env, file_consts(path))
-            tree = it.exec_block(body, St({metas[0]: REG, metas[1]: ("opq", "_", False)}, has_reg=True), lambda v, s: ("fall",))
-            d = nm.canon(tree)
-            if d[0] == "E" and d[1][0] == "ER" and d[2] == ("FALL",):
-                cfg["bailCode"] = d[1][1]
-                why = None
-            else:
-                why = "bail_on_below_zero!: not of the form `if is_syscall_error(res) { return Err(with_code(..)) }`"
-        except (ParseError, Opaque, RecursionError, ValueError, IndexError) as e:
-            why = "bail_on_below_zero!: %s" % e
+        for m in re.finditer(r"macro_rules!\s*(\w+)\s*\{", src):
+            name = m.group(1)
+            try:
+                toks = tokenize(src[m.end():match_close(src, m.end() - 1)])
+                if not toks or toks[0] != "(":
+                    raise ParseError("arm pattern")
+                pc = match_close(toks, 0)
+                pat = toks[1:pc]
+                metas = [t for t in pat if t.startswith("$")]
+                if len(metas) != 2 or [t for t in pat if not t.startswith("$")] not in ([":", "expr", ",", ":", "expr"], [":", "expr", ",", ":", "expr", ","]):
+                    raise ParseError("expected two expression parameters")
+                if toks[pc + 1] != "=>":
+                    raise ParseError("arm arrow")
+                body = toks[pc + 3:match_close(toks, pc + 2)]
+                it = Interp(env, file_consts(path))
+                tree = it.exec_block(body, St({metas[0]: REG, metas[1]: ("opq", "_", False)}, has_reg=True), lambda v, s: ("fall",))
+                d = nm.canon(tree)
+                if d[0] == "E" and d[1][0] == "ER" and d[2] == ("FALL",):
+                    # a code expression the translator cannot follow is a function of the register on the (finite) error
+                    # window only: left to the exhaustive run-time observation
+                    results[name] = ("ok", d[1][1])
+                else:
+                    results[name] = ("other", "not of the form `if is_syscall_error(res) { return Err(with_code(..)) }`")
+            except Suspect as e:
+                results[name] = ("suspect", str(e))
+            except (ParseError, Opaque, RecursionError, ValueError, IndexError) as e:
+                results[name] = ("opaque", str(e))
+    main = results.get("bail_on_below_zero")
+    others = {n: r[1] for n, r in results.items() if r[0] == "ok" and n != "bail_on_below_zero"}
+    env.bail_macros = set(others) | ({"bail_on_below_zero"} if main else set())
+    codes = set(others.values()) | ({main[1]} if main and main[0] == "ok" else set())
+    if main is None and not others:
+        why = "bail_on_below_zero!: definition not found"
+    elif main is not None and main[0] == "suspect":
+        problems.append("bail_on_below_zero!: %s" % main[1])
+        cfg["bailCode"] = ".custom " + lean_str(main[1])
+        why = None
+    elif main is not None and main[0] != "ok":
+        why = "bail_on_below_zero!: %s" % main[1]
+    elif any(c.startswith(".custom") for c in codes):
+        why = "bail_on_below_zero!: error code expression not understood: " + " | ".join(c[8:] for c in sorted(codes) if c.startswith(".custom"))
+    elif len(codes) > 1:
+        problems.append("bail macros build different error codes: %s" % ", ".join(sorted(codes)))
+        cfg["bailCode"] = ".custom " + lean_str("bail macros disagree")
+        why = None
+    else:
+        cfg["bailCode"] = sorted(codes)[0]
+        why = None
     if why:
         unknown.append("bailCode")
         problems.append(why)
         cfg["bailCode"] = ".custom " + lean_str(why)
 
-    # --- NonNegativeI32::coerce_from_register
-    why = "coerce_from_register: definition not found"
+    # --- NonNegativeI32::coerce_from_register by name, and any other `fn(usize, &str) -> Result<Self, _>` of platform/ doing the same
+    results = {}
     for path in rs_files("platform"):
-        if "fn coerce_from_register" not in open(path).read():
+        if "usize" not in open(path).read():
             continue
         for fn in find_fns(path):
-            if fn["name"] != "coerce_from_register" or len(fn["params"]) != 2:
+            named = fn["name"] == "coerce_from_register"
+            if len(fn["params"]) != 2 or not (named or (re.search(r":\s*usize$", fn["params"][0]) and "Result<Self" in fn["ret"])):
                 continue
             pn, pm = param_name(fn["params"][0]), param_name(fn["params"][1])
             try:
@@ -1963,12 +2151,34 @@ def extract_cfg(env):
                 ok = d[2][1] if d[0] == "E" and d[2][0] == "OK" else None
                 if d[0] == "E" and d[1][0] == "ER" and ok is not None and ok[0] == "ctor" and len(ok[2]) == 1 \
                         and ok[2][0][0] == "cast" and ok[2][0][1] == REG and ok[2][0][2] in ("i32", "u32", "i64", "u64"):
-                    cfg["coerceCode"], cfg["coerceOk"] = d[1][1], ok[2][0][2]
-                    why = None
+                    results[fn["name"]] = ("ok", (d[1][1], ok[2][0][2]))
                 else:
-                    why = "coerce_from_register: not of the form `if is_syscall_error(v) { Err(with_code(..)) } else { Ok(Self(v as T)) }`"
+                    results[fn["name"]] = ("other", "not of the form `if is_syscall_error(v) { Err(with_code(..)) } else { Ok(Self(v as T)) }`")
+            except Suspect as e:
+                results[fn["name"]] = ("suspect", str(e))
             except (ParseError, Opaque, RecursionError, ValueError, IndexError) as e:
-                why = "coerce_from_register: %s" % e
+                results[fn["name"]] = ("opaque", str(e))
+    main = results.get("coerce_from_register")
+    others = {n: r[1] for n, r in results.items() if r[0] == "ok" and n != "coerce_from_register"}
+    env.coerce_fns = set(others) | ({"coerce_from_register"} if main else set())
+    codes = set(others.values()) | ({main[1]} if main and main[0] == "ok" else set())
+    if main is None and not others:
+        why = "coerce_from_register: definition not found"
+    elif main is not None and main[0] == "suspect":
+        problems.append("coerce_from_register: %s" % main[1])
+        cfg["coerceCode"], cfg["coerceOk"] = ".custom " + lean_str(main[1]), "i32"
+        why = None
+    elif main is not None and main[0] != "ok":
+        why = "coerce_from_register: %s" % main[1]
+    elif any(c[0].startswith(".custom") for c in codes):
+        why = "coerce_from_register: error code expression not understood: " + " | ".join(c[0][8:] for c in sorted(codes) if c[0].startswith(".custom"))
+    elif len(codes) > 1:
+        problems.append("register-to-fd conversions decode differently: %s" % ", ".join(sorted(str(c) for c in codes)))
+        cfg["coerceCode"], cfg["coerceOk"] = ".custom " + lean_str("conversions disagree"), "i32"
+        why = None
+    else:
+        cfg["coerceCode"], cfg["coerceOk"] = sorted(codes)[0]
+        why = None
     if why:
         unknown += ["coerceCode", "coerceOk"]
         problems.append(why)
@@ -2012,7 +2222,7 @@ def accessor_of_ret(env, ret):
 
 
 def analyse_fn(env, nm, fn, consts, callees):
-    """-> (("skel", term) | ("via", callee) | ("opaque", reason), post_checks)"""
+    """-> (("skel", term) | ("via", callee) | ("opaque", reason) | ("suspect", reason), post_checks)"""
     it = Interp(env, consts, callees)
     try:
         toks = tokenize(fn["body"])
@@ -2023,6 +2233,8 @@ def analyse_fn(env, nm, fn, consts, callees):
                 st = st.bind(n, ("opq", n, False))
         tree = it.exec_block(toks, st, lambda v, s: ("ret", v))
         return nm.skeleton(tree, fn), it.post_checks
+    except Suspect as e:
+        return ("suspect", str(e)), it.post_checks
     except Opaque as e:
         return ("opaque", str(e)), it.post_checks
     except ParseError as e:
@@ -2069,12 +2281,14 @@ def extract(write=True):
                 res, pc = analyse_fn(env, nm, fn, consts, [n for n in local if n != fn["name"]] if via_ok else [])
             w = {"name": top + "::" + fn["name"], "fn": fn["name"], "top": top, "file": rel, "line": fn["line"],
                  "sites": len(re.findall(r"\bsyscall!\(", fn["body"])), "pub": fn["pub"], "unsafe": fn["unsafe"],
-                 "params": fn["params"], "ret": fn["ret"], "cat": ret_category(env, fn["ret"]), "via": None, "opaque": None,
+                 "params": fn["params"], "ret": fn["ret"], "cat": ret_category(env, fn["ret"]), "via": None, "opaque": None, "suspect": None,
                  "acc": accessor_of_ret(env, fn["ret"]), "post_checks": pc}
             if res[0] == "via":
                 callee = local[res[1]]
                 w["via"] = callee["fn"]
-                if callee["opaque"]:
+                if callee["suspect"]:
+                    res = ("suspect", "delegates to `%s`: %s" % (callee["fn"], callee["suspect"]))
+                elif callee["opaque"]:
                     res = ("opaque", "delegates to `%s`, which is opaque" % callee["fn"])
                 elif callee["ret"].replace("crate::", "").replace("error::", "") != fn["ret"].replace("crate::", "").replace("error::", ""):
                     res = ("opaque", "delegates to `%s` with another return type" % callee["fn"])
@@ -2089,13 +2303,16 @@ def extract(write=True):
                 if not same:
                     return False
                 w["via"] = same[0]
-                if res[0] != "opaque":
+                if res[0] not in ("opaque", "suspect"):
                     res = ("opaque", "calls `%s` and post-processes" % same[0])
             if fn["ret"] == "!":
                 res = ("skel", ".noRet")
             if res[0] == "opaque":
                 w["opaque"] = res[1]
                 w["skel"] = ".custom " + lean_str("opaque: " + res[1])
+            elif res[0] == "suspect":
+                w["suspect"] = res[1]
+                w["skel"] = ".custom " + lean_str("not a shape the property allows: " + res[1])
             else:
                 w["skel"] = res[1]
             local[fn["name"]] = w
